@@ -391,7 +391,7 @@ class Unit:
             data = np.array(u, subok=True)
             unit = getattr(u, "units", None)
             if unit is not None:
-                if self.dimensions is logarithmic:
+                if self.dimensions == logarithmic:
                     raise InvalidUnitOperation(
                         f"Tried to multiply '{self}' and '{unit}'."
                     )
@@ -406,9 +406,9 @@ class Unit:
             if data.shape == ():
                 return _import_cache_singleton.uq(data, units, bypass_validation=True)
             return _import_cache_singleton.ua(data, units, bypass_validation=True)
-        elif self.dimensions is logarithmic and not u.is_dimensionless:
+        elif self.dimensions == logarithmic and not u.is_dimensionless:
             raise InvalidUnitOperation(f"Tried to multiply '{self}' and '{u}'.")
-        elif u.dimensions is logarithmic and not self.is_dimensionless:
+        elif u.dimensions == logarithmic and not self.is_dimensionless:
             raise InvalidUnitOperation(f"Tried to multiply '{self}' and '{u}'.")
 
         base_offset = 0.0
@@ -443,9 +443,9 @@ class Unit:
                     f"Tried to divide a Unit object by '{u}' (type {type(u)}). "
                     "This behavior is undefined."
                 )
-        elif self.dimensions is logarithmic and not u.is_dimensionless:
+        elif self.dimensions == logarithmic and not u.is_dimensionless:
             raise InvalidUnitOperation(f"Tried to divide '{self}' and '{u}'.")
-        elif u.dimensions is logarithmic and not self.is_dimensionless:
+        elif u.dimensions == logarithmic and not self.is_dimensionless:
             raise InvalidUnitOperation(f"Tried to divide '{self}' and '{u}'.")
 
         base_offset = 0.0
@@ -478,7 +478,7 @@ class Unit:
                 "Failed to cast it to a float."
             )
 
-        if self.dimensions is logarithmic and p != 1:
+        if self.dimensions == logarithmic and p != 1:
             raise InvalidUnitOperation(f"Tried to raise '{self}' to power '{p}'")
 
         return Unit(
